@@ -813,6 +813,16 @@ def tag_state_rules(ctx, rule="ROLE-tag_state"):
             good = nm is not None and m.ev(nm) == "nm" and full[2] == (("star", VA),) and fn is not None and fn[0] in ("closure", "name") and identity_ok(ev, fn)
         except Unknown:
             good = False
+        # the re-inserted tag must itself be batchable by the same rule: a second batching level (vmap of vmap, vmap of modular_vmap, a scan
+        # body under two vmaps) otherwise falls back to initial_style_bind's default batcher, which batches the identity and does NOT re-bind
+        # state_p — the tag disappears from the Jaxpr and the value is never collected
+        rb = ev.kwget(inner[1][3], "batch")
+        if good and (rb is None or rb != batch):
+            ctx.bad("SIB-state-batch", "state.tag_state.batch_rule (nested)", "the re-inserted tag carries the same batch rule",
+                    "under vmap the tag is re-inserted " + ("without a batch rule" if rb is None else f"with a different batch rule ({short(rb, ev, 60)})")
+                    + ": a second batching level uses the default batcher, which does not re-bind state_p, so values saved under two stacked vmaps "
+                    "(state(vmap(vmap(f))), a scan body under two vmaps) are silently not collected", func_loc(ctx, dotted))
+            return
     if good:
         ctx.ok("SIB-state-batch", "state.tag_state.batch_rule (re-bind)", "same primitive and name on the vectorised operands")
     else:
